@@ -15,6 +15,7 @@
  *     u:<pubfile-hex>:<oid>:<value-hex>   the publications file is from now on this one (served through file://, trusted through
  *                                the CA in $VERIF_PKI_DIR under the given certificate constraint); fresh contexts are configured
  *                                with the file that is current                                 => U<st>
+ *     vu:<pubfile-hex>:<policy>  verification with a publications file supplied by the caller in the verification context => V…/F…
  *     uo:<pubfile-hex>           the content behind the unchanged publications URL is replaced  => U0
  *     ttl:<seconds>              KSI_OPT_PUBFILE_CACHE_TTL_SECONDS of the context (0: every use fetches the file again) => T<st>
  *     xp:<ver>:<reply-hex>:<pubrec-hex|->:<to|->   an extension that SUCCEEDS when the reply is honest: the extender is a file:// URI whose
@@ -146,6 +147,29 @@ static void do_line(char *work, const char *orig) {
 					KSI_DataHash_free(d2); KSI_Signature_free(s2); KSI_CTX_free(c2);
 				}
 				KSI_DataHash_free(doc);
+			} else if (!strncmp(op, "vu:", 3)) {
+				/* vu:<pubfile-hex>:<policy>: verification with a publications file supplied by the CALLER in the verification context
+				 * (whatever file the context itself has fetched before); the fresh twin gets the same caller's file */
+				char *a = op + 3, *b = strchr(a, ':'); size_t pl; unsigned char *pb; const KSI_Policy *pol; int k;
+				if (b == NULL) { printf("BAD-OP"); continue; }
+				*b = 0; pb = unhex(a, &pl); pol = policy_by_name(b + 1);
+				if (pol == NULL) { printf("BAD-OP"); free(pb); continue; }
+				for (k = 0; k < 2; k++) {
+					KSI_CTX *c = ctx, *c2 = NULL; KSI_Signature *s2 = sig; KSI_PublicationsFile *pf = NULL; KSI_VerificationContext vc; KSI_PolicyVerificationResult *res = NULL; int r2;
+					if (k == 1) { KSI_CTX_new(&c2); configure_pub(c2, 1); c = c2; s2 = NULL; KSI_Signature_parseWithPolicy(c2, raw, len, KSI_VERIFICATION_POLICY_EMPTY, NULL, &s2); putchar('/'); }
+					r2 = KSI_PublicationsFile_parse(c, pb, pl, &pf);
+					KSI_VerificationContext_init(&vc, c);
+					vc.signature = s2; vc.userPublicationsFile = pf;
+					if (r2 == KSI_OK) r2 = KSI_SignatureVerifier_verify(pol, &vc, &res);
+					if (r2 == KSI_OK && res != NULL) printf("%c0:%d:%d", k ? 'F' : 'V', (int)res->finalResult.resultCode, (int)res->finalResult.errorCode);
+					else printf("%c%d:-:-", k ? 'F' : 'V', r2);
+					KSI_PolicyVerificationResult_free(res);
+					vc.signature = NULL; vc.userPublicationsFile = NULL;
+					KSI_VerificationContext_clean(&vc);
+					KSI_PublicationsFile_free(pf);
+					if (k == 1) { KSI_Signature_free(s2); KSI_CTX_free(c2); }
+				}
+				free(pb);
 			} else if (!strncmp(op, "u:", 2)) {
 				char *a = op + 2, *b = strchr(a, ':'), *c = b ? strchr(b + 1, ':') : NULL; size_t pl, vl; unsigned char *pb, *vb; int fd, first = !have_pub; FILE *f;
 				if (b == NULL || c == NULL) { printf("BAD-OP"); continue; }
